@@ -161,7 +161,7 @@ Pin ==
   IF c.kind \in {"enc", "cas"} THEN "full"
   ELSE IF c.kind = "cut" THEN "novalue"
   ELSE IF c.kind \in {"curvetype", "curvelayout"} THEN (IF res.k = "ok" THEN "full" ELSE IF c.bytes[1] \notin {1, 3} THEN "err_kind" ELSE "novalue")
-  ELSE (IF res.k = "ok" THEN "full" ELSE "novalue")
+  ELSE (IF res.k = "ok" THEN "full" ELSE IF res.k \in {"err", "fail"} THEN "reject" ELSE "novalue")
 EmitCase ==
   LET c == Cases[i] IN
   EmitLine(CaseLine(i, c.fn, ArgsOf(c), <<Lit(c.bytes)>>, res, Pin, [kind |-> c.kind, sub |-> c.sub, ext |-> c.ext]))
